@@ -25,7 +25,7 @@ def tasks(tier):
         for kind in ('int', 'float'):
             vi('fxp_ctor', dict(l=l, f=f, kind=kind), 'mpyc.sectypes.SecureFixedPoint.__init__', b)
         # list functions: every assignment of flags to the two elements of each list (True / not known)
-        for func in ('vector_add', 'vector_sub', 'scalar_mul', 'schur_prod', 'sum', 'in_prod', 'prod', 'matrix_prod'):
+        for func in ('vector_add', 'vector_sub', 'scalar_mul', 'schur_prod', 'sum', 'in_prod', 'prod', 'matrix_prod', 'sum_start', 'sum_start_float', 'sum_start_int', 'prod_start'):
             for fl in itertools.product((True, None), repeat=4):
                 vi('fxp_list', dict(l=l, f=f, func=func, flags=fl + (1,)), f'mpyc.runtime.Runtime.{func}', b)
         for func in ('if_else_list', 'if_swap_list'):
